@@ -14,8 +14,9 @@ from pydbml import PyDBML  # noqa: E402
 PID = 'C15'
 THEOREMS_PLANNED = ['PyDBML.C15.render_off_ignores_props', 'PyDBML.C15.column_props_shown_iff_enabled',
             'PyDBML.C15.sql_ignores_props']
-THEOREMS = ['PyDBML.C15.column_props_hidden', 'PyDBML.C15.table_props_hidden', 'PyDBML.C15.column_props_shown', 'PyDBML.C15.sql_column_ignores_props']
-MODULES = ['PyDBMLProofs.Props.C15']
+THEOREMS = ['PyDBML.C15.column_props_hidden', 'PyDBML.C15.table_props_hidden', 'PyDBML.C15.column_props_shown', 'PyDBML.C15.sql_column_ignores_props',
+            'PyDBML.C15.parseDoc_no_props_when_off']
+MODULES = ['PyDBMLProofs.Props.C15', 'PyDBMLProofs.Props.C15Grammar', 'PyDBMLProofs.Hoare']
 
 
 def has_props(spec):
@@ -186,7 +187,9 @@ def main(tier, seed):
              'rendered under three flips of the database flag, at database, table and column level. Non-trivial: the document '
              'has at least one property; distinct by document hash',
         explanation='Theorems: the DBML rendering of a database with the flag off equals that of the same database with all '
-                    'properties erased; a column shows its properties iff the flag is on; SQL never depends on properties. Model '
+                    'properties erased; a column shows its properties iff the flag is on; SQL never depends on properties; parseDoc_no_props_when_off - '
+                    'for ANY text parsed with the option off no table or column blueprint carries a property (postcondition logic over '
+                    'the grammar model): `key: value` is never read as a property there. Model '
                     'tied by parse correspondence under both option values. Oracle: exact storage and order with the option on, '
                     'syntax error with it off, nothing else changes for documents without properties, flips switch rendering.',
         assumptions=['property values without line breaks for the round-trip clause (multi-line values: see C13 findings)'],
